@@ -920,11 +920,12 @@ def run_c16(ctx):
                 mismatches.append({'case': 'SimplifyPathD', 'eps': m['eps'], 'closed': m['closed'], 'go': want, 'model': got})
             # the property's clauses on the float result, in units of 1/8 (the inputs are exact multiples of 1/8)
             if m.get('path8') is not None:
-                go8 = [[int(F(a) * 8), int(F(b) * 8)] for a, b in want]
-                for cl in simplify_clauses(m['path8'], m['eps'] * 8, m['closed'], go8, {}):
-                    e = {'pathD_times_8': m['path8'], 'eps_times_8': m['eps'] * 8, 'closed': m['closed']}
-                    viol.append({'key': fw.input_key(e), 'kind': 'D:' + cl, 'text': 'SimplifyPathD(path/8 of %s, eps=%s, closed=%s) = (1/8)*%s: %s' % (str(m['path8'])[:300], m['eps'], m['closed'], str(go8)[:200], cl),
-                                 'detail': {'corpus_entry': e, 'go_times_8': go8, 'model': got}})
+                k2 = 2 ** int(m.get('dscale', 3))
+                go8 = [[int(F(a) * k2), int(F(b) * k2)] for a, b in want]
+                for cl in simplify_clauses(m['path8'], F(m['eps']) * k2, m['closed'], go8, {}):
+                    e = {'pathD_times_2^k': m['path8'], 'k': int(m.get('dscale', 3)), 'eps_times_2^k': float(F(m['eps']) * k2), 'closed': m['closed']}
+                    viol.append({'key': fw.input_key(e), 'kind': 'D:' + cl, 'text': 'SimplifyPathD(path/2^k of %s, eps=%s, closed=%s) = 2^-k*%s: %s' % (str(m['path8'])[:300], m['eps'], m['closed'], str(go8)[:200], cl),
+                                 'detail': {'corpus_entry': e, 'go_times_2^k': go8, 'model': got}})
             continue
         p, eps, closed, go = m['path'], m['eps'], m['closed'], m['go']
         model = None if t[0] == 'NONE' else [[int(t[1 + 2 * i]), int(t[2 + 2 * i])] for i in range(int(t[0]))]
